@@ -1,3 +1,4 @@
 import RootSim.Model.Msg
+import RootSim.Model.Sim
 import RootSim.Proofs.MsgOrder
 import RootSim.Props.C16
